@@ -2,10 +2,7 @@
 
 package document
 
-// VerifResetGlobals resets the process-wide note and numbering registries so that
-// verification cases executed in one process start from the state of a fresh process.
-// Compiled only with the "verif" build tag; it is not part of the library's API.
-func VerifResetGlobals() {
-	globalFootnoteManager = nil
-	globalNumberingManager = nil
-}
+// VerifResetGlobals used to reset the process-wide note and numbering registries. The registries
+// are per-document now, so there is no process-wide state left to reset; the function is kept so that
+// the verification harness keeps compiling. Compiled only with the "verif" build tag.
+func VerifResetGlobals() {}
